@@ -364,6 +364,85 @@ theorem no_shared_hostname (ts : List Tunnel) (reg : List String) (fr : List (Op
   rw [← this.1] at h2
   exact hni h2
 
+/-! ## failing requests (`GenerateHostname` errors, exhausted script) -/
+
+theorem somes_length_le (l : List (Option String)) : (somes l).length ≤ l.length := by
+  induction l with
+  | nil => simp [somes]
+  | cons x l ih => cases x <;> simp [somes] <;> omega
+
+theorem somes_take_le (k : Nat) (l : List (Option String)) : (somes (l.take k)).length ≤ k :=
+  Nat.le_trans (somes_length_le _) (List.length_take_le _ _)
+
+/-- requests among the first `k` calls of a script that failed (a call beyond the script fails) -/
+def failedCalls (k : Nat) (fr : List (Option String)) : Nat := k - (somes (fr.take k)).length
+
+/-- The tunnels left needing a name after the loop are exactly as many as requests failed. -/
+theorem assign_unnamed (ts : List Tunnel) (av : List String) (fr : List (Option String))
+    (hcfg : ∀ n ∈ av ++ somes fr, ∀ t ∈ ts, t.host ≠ n) :
+    needy (assign ts av fr).1 = failedCalls (assign ts av fr).2 fr := by
+  fun_induction assign ts av fr with
+  | case1 => simp [needy, failedCalls]
+  | case2 t ts av fr ht r ih =>
+    have := ih (fun n hn u hu => hcfg n hn u (List.mem_cons_of_mem _ hu))
+    simpa [needy, ht] using this
+  | case3 t ts fr ht hh a av' r ih =>
+    have ha : a ≠ "" := fun h => hcfg a (by simp) t List.mem_cons_self (by rw [hh, h])
+    have := ih (fun n hn u hu => hcfg n (List.mem_cons_of_mem _ hn) u (List.mem_cons_of_mem _ hu))
+    simpa [needy, ha] using this
+  | case4 t ts ht hh n fr' r ih =>
+    have hn : n ≠ "" := fun h => hcfg n (by simp [somes]) t List.mem_cons_self (by rw [hh, h])
+    have := ih (fun m hm u hu => hcfg m (by simp [somes] at hm ⊢; exact .inr hm) u (List.mem_cons_of_mem _ hu))
+    simp +zetaDelta [needy, failedCalls, hn, somes] at this ⊢; omega
+  | case5 t ts ht hh fr' r ih =>
+    have := ih (fun m hm u hu => hcfg m (by simp [somes] at hm ⊢; exact hm) u (List.mem_cons_of_mem _ hu))
+    have hle := somes_take_le r.2 fr'
+    simp +zetaDelta [needy, failedCalls, ht, hh, somes] at this hle ⊢; omega
+  | case6 t ts ht hh r ih =>
+    have := ih (by simp [somes])
+    simp +zetaDelta [needy, failedCalls, ht, hh, somes] at this ⊢; omega
+  | case7 t ts av fr ht hh r ih =>
+    have := ih (fun n hn u hu => hcfg n hn u (List.mem_cons_of_mem _ hu))
+    simpa [needy, hh] using this
+
+/-- unnamed_only_after_failed_request ("each tunnel with a target has a hostname", for runs in which
+requests may fail): after the sync the tunnels with a target and without hostname are exactly as many
+as `GenerateHostname` calls failed — a failing request leaves its own tunnel unnamed and costs no
+other tunnel its name. With no failing call this is `every_target_named`. -/
+theorem unnamed_only_after_failed_request (ts : List Tunnel) (reg : List String) (fr : List (Option String))
+    (hcfg : ∀ n ∈ somes fr, n ∉ hosts ts) :
+    needy (sync ts (some reg) fr).out = failedCalls (sync ts (some reg) fr).calls fr := by
+  apply assign_unnamed ts (available ts reg) fr
+  intro n hn t ht heq
+  have hin : t.host ∈ hosts ts := List.mem_map.mpr ⟨t, ht, rfl⟩
+  rcases List.mem_append.mp hn with h | h
+  · exact (mem_available h).2.2 (heq ▸ hin)
+  · exact hcfg n h (heq ▸ hin)
+
+/-- no_shared_hostname_faulty (distinctness in its clean form, failing requests included): if the
+configuration does not itself list a hostname twice, the registered list is a set and generated
+hostnames are new, then — whatever requests fail — a non-empty hostname of the synchronised list is
+carried by exactly one tunnel. In particular a tunnel whose request failed does not inherit the
+hostname handed to an earlier tunnel. -/
+theorem no_shared_hostname_faulty (ts : List Tunnel) (reg : List String) (fr : List (Option String))
+    (hreg : reg.Nodup) (hf : FreshOK ts reg fr)
+    (hcfg : ts.Pairwise fun a b => a.host = b.host → a.host = "")
+    (i j : Nat) (hij : i ≠ j)
+    (hi : i < (sync ts (some reg) fr).out.length) (hj : j < (sync ts (some reg) fr).out.length)
+    (hni : (sync ts (some reg) fr).out[i].host ≠ "") :
+    (sync ts (some reg) fr).out[i].host ≠ (sync ts (some reg) fr).out[j].host := by
+  have hlen' : (sync ts (some reg) fr).out.length = ts.length := (configured_kept ts (some reg) fr).1
+  intro heq
+  have := distinct_idx ts reg fr hreg hf i j hij (by omega) (by omega) hi hj heq
+  have h1 : ts[i].host = ts[j].host := by rw [← this.1, ← this.2]; exact heq
+  have hp := List.pairwise_iff_getElem.mp hcfg
+  have h2 : ts[i].host = "" := by
+    rcases Nat.lt_or_gt_of_ne hij with h | h
+    · exact hp i j (by omega) (by omega) h h1
+    · exact h1 ▸ hp j i (by omega) (by omega) h h1.symm
+  rw [← this.1] at h2
+  exact hni h2
+
 /-! ## non-vacuity: concrete instances satisfying the hypotheses (and exercising reuse + request) -/
 
 def exTs : List Tunnel :=
@@ -383,5 +462,16 @@ example : exTs.Pairwise fun a b => a.host = b.host → a.host = "" := by decide
 example : (sync [⟨"tcp://a", "x"⟩, ⟨"tcp://b", "x"⟩] (some []) []).out = [⟨"tcp://a", "x"⟩, ⟨"tcp://b", "x"⟩] := by decide
 /-- without `registered.Nodup` the property fails: the hypothesis is needed -/
 example : (sync [⟨"tcp://a", ""⟩, ⟨"tcp://b", ""⟩] (some ["r", "r"]) []).out = [⟨"tcp://a", "r"⟩, ⟨"tcp://b", "r"⟩] := by decide
+
+/-- failing requests: reuse, then a failing request, then a successful one — the tunnel whose request
+failed stays unnamed (it does not inherit `old1`), everything else is named apart -/
+def exFrF : List (Option String) := [none, some "new1"]
+def exTsF : List Tunnel := exTs ++ [⟨"tcp://e", ""⟩]
+example : (sync exTsF (some exReg) exFrF).out =
+    [⟨"tcp://a", "old1"⟩, ⟨"tcp://b", "kept"⟩, ⟨"", ""⟩, ⟨"tcp://c", ""⟩, ⟨"tcp://d", "my.custom.com"⟩, ⟨"tcp://e", "new1"⟩] ∧
+    (sync exTsF (some exReg) exFrF).calls = 2 ∧ failedCalls 2 exFrF = 1 := by decide
+example : FreshOK exTsF exReg exFrF := ⟨by decide, by decide, by decide⟩
+example : exTsF.Pairwise fun a b => a.host = b.host → a.host = "" := by decide
+example : ∀ n ∈ somes exFrF, n ∉ hosts exTsF := by decide
 
 end Specter.C43
